@@ -10,6 +10,13 @@
 //!   C19/C20 ("messages written to the sink").
 //! * A reader that keeps polling a closed, drained stream 1000 times in a row is a busy loop; the
 //!   pipe turns that into a panic (a deterministic failure) instead of a hang.
+//! * Optional *flush gate* (`pipe_gated`, used by C20's back-pressure part; off for every other
+//!   user): every item accepted by `start_send` stays "unflushed" until the harness calls
+//!   `grant_one()`. `poll_flush` is `Pending` while an unflushed item exists, `poll_ready` while more
+//!   than `slack` unflushed items exist. That is a transport whose flush completes late (slow
+//!   remote, exhausted flow-control window) at a moment chosen by the harness, independent of when
+//!   the reader takes the message. The harness grants every flush eventually, so the gate alone can
+//!   never deadlock a pair of sessions.
 
 use std::collections::{BTreeMap, VecDeque};
 use std::pin::Pin;
@@ -99,6 +106,10 @@ struct State<M> {
     transcript: Vec<Wire>,
     closed_polls: u32,
     max_len: usize,
+    /// Flush gate: `Some(slack)` = on.
+    gate: Option<usize>,
+    /// Items accepted by `start_send` whose flush the harness has not granted yet (gate only).
+    unflushed: usize,
 }
 
 impl<M> State<M> {
@@ -108,6 +119,17 @@ impl<M> State<M> {
             Some(b) => self.queue.len() <= b,
         }
     }
+
+    fn gate_ready(&self) -> bool {
+        match self.gate {
+            None => true,
+            Some(slack) => self.unflushed <= slack,
+        }
+    }
+
+    fn gate_flushed(&self) -> bool {
+        self.gate.is_none() || self.unflushed == 0
+    }
 }
 
 pub struct PipeTx<M>(Arc<Mutex<State<M>>>);
@@ -115,6 +137,11 @@ pub struct PipeRx<M>(Arc<Mutex<State<M>>>);
 pub struct PipeCtl<M>(Arc<Mutex<State<M>>>);
 
 pub fn pipe<M>(buffer: Option<usize>, manual: bool) -> (PipeTx<M>, PipeRx<M>, PipeCtl<M>) {
+    pipe_gated(buffer, manual, None)
+}
+
+/// Like `pipe`, with the flush gate switched on when `gate` is `Some(slack)`.
+pub fn pipe_gated<M>(buffer: Option<usize>, manual: bool, gate: Option<usize>) -> (PipeTx<M>, PipeRx<M>, PipeCtl<M>) {
     let st = Arc::new(Mutex::new(State {
         queue: VecDeque::new(),
         released: 0,
@@ -126,6 +153,8 @@ pub fn pipe<M>(buffer: Option<usize>, manual: bool) -> (PipeTx<M>, PipeRx<M>, Pi
         transcript: Vec::new(),
         closed_polls: 0,
         max_len: 0,
+        gate,
+        unflushed: 0,
     }));
     (PipeTx(st.clone()), PipeRx(st.clone()), PipeCtl(st))
 }
@@ -162,6 +191,38 @@ impl<M> PipeCtl<M> {
         self.0.lock().unwrap().transcript.clone()
     }
 
+    pub fn transcript_len(&self) -> usize {
+        self.0.lock().unwrap().transcript.len()
+    }
+
+    /// Flushes the harness still has to grant (always 0 without the gate).
+    pub fn pending_grants(&self) -> usize {
+        let g = self.0.lock().unwrap();
+        if g.gate.is_some() { g.unflushed } else { 0 }
+    }
+
+    /// The sink has accepted an item that is not flushed yet (gate not granted or over capacity).
+    pub fn flush_pending(&self) -> bool {
+        let g = self.0.lock().unwrap();
+        !g.queue.is_empty() && !g.has_room() || !g.gate_flushed()
+    }
+
+    /// Grants the flush of the oldest unflushed item.
+    pub fn grant_one(&self) -> bool {
+        let waker = {
+            let mut g = self.0.lock().unwrap();
+            if g.gate.is_none() || g.unflushed == 0 {
+                return false;
+            }
+            g.unflushed -= 1;
+            g.send_waker.take()
+        };
+        if let Some(w) = waker {
+            w.wake();
+        }
+        true
+    }
+
     pub fn is_closed(&self) -> bool {
         self.0.lock().unwrap().closed
     }
@@ -179,7 +240,7 @@ impl<M: WireMsg + Unpin> Sink<M> for PipeTx<M> {
         if g.closed {
             return Poll::Ready(Err(PipeError("sink used after close")));
         }
-        if g.has_room() {
+        if g.has_room() && g.gate_ready() {
             Poll::Ready(Ok(()))
         } else {
             g.send_waker = Some(cx.waker().clone());
@@ -193,8 +254,11 @@ impl<M: WireMsg + Unpin> Sink<M> for PipeTx<M> {
             if g.closed {
                 return Err(PipeError("send after close"));
             }
-            if !g.has_room() {
+            if !g.has_room() || !g.gate_ready() {
                 return Err(PipeError("start_send without poll_ready"));
+            }
+            if g.gate.is_some() {
+                g.unflushed += 1;
             }
             g.transcript.push(item.wire());
             g.queue.push_back(item);
@@ -215,7 +279,7 @@ impl<M: WireMsg + Unpin> Sink<M> for PipeTx<M> {
     fn poll_flush(self: Pin<&mut Self>, cx: &mut Context<'_>) -> Poll<Result<(), PipeError>> {
         // Same rule as futures mpsc: flushed once the sender is no longer over its buffer.
         let mut g = self.0.lock().unwrap();
-        if g.has_room() {
+        if g.has_room() && g.gate_flushed() {
             Poll::Ready(Ok(()))
         } else {
             g.send_waker = Some(cx.waker().clone());
